@@ -9,7 +9,7 @@
 use crate::grid::*;
 use crate::matrix::{CastOut, do_cast};
 use arrow_array::types::*;
-use arrow_array::{Array, ArrayRef};
+use arrow_array::ArrayRef;
 use arrow_cast::display::{ArrayFormatter, DurationFormat, FormatOptions};
 use arrow_cast::parse::Parser;
 use arrow_cast::{CastOptions, cast_with_options};
